@@ -17,6 +17,8 @@ MC = {
     "thorough": [("MC_C03_defs", "MC_C03_thorough.cfg", 16)],
 }
 TRACE = ("Trace_C03", "Trace_C03.cfg")
+# the repository\'s own tests, recorded by harness/harvest_plugin.py, judged by the same trace specification
+ALSO = {"quick": [], "thorough": ["harness.props.hv03"]}
 RULE = ("one case = one variable layout (convention, grid kind, 0-3 extra dimensions, one permutation of the "
         "dimension order, dtype) driven through ravel -> wind -> ravel(custom name) -> wind(by name), or fresh "
         "linear data with the linear dimension at a chosen position wound by default / axis / negative axis / "
